@@ -842,6 +842,9 @@ func (g *Gen) History() []Entry {
 			g.config()
 		case r < 32 && g.P.Services && g.hasCfg:
 			g.makeLink()
+		case r < 45 && g.P.Deletes && g.P.Extra && g.R.Intn(8) == 0:
+			// POST /kill takes any session id: one that was never created, or is still to come
+			g.emit(Entry{Type: int64(robust.DeleteSession), Session: g.idx + uint64(g.R.Intn(60)+1), Data: "killed", Cmd: "DELETE"})
 		case r < 45 && g.P.Deletes:
 			s := l[g.R.Intn(len(l))]
 			g.emit(Entry{Type: int64(robust.DeleteSession), Session: s.id, Data: g.pick([]string{"Ping timeout (10m0s)", "killed", "client quit", ""}), Cmd: "DELETE"})
